@@ -1,5 +1,6 @@
 import Driver.Util
 import Driver.ExecIO
+import GqlgenVerif.Model.ExecSpec
 /-! Driver for C01: first line = schema JSON, every further line = one harness result (document,
     coerced variables, invocation log). Prints the model's response for the same oracle. -/
 open Lean GqlgenVerif Driver.ExecIO
@@ -20,17 +21,31 @@ def runCase (s : Schema) (line : String) : String :=
       match s.type? rootName with
       | none => "no-root"
       | some root =>
-        match planFields s d.frags vs fuel root d.sels with
+        let o := oracle (arr j "log")
+        match planFields s (implCollector s d.frags vs) fuel root d.sels with
         | none => "out-of-fuel"
         | some fields =>
-          let o := oracle (arr j "log")
           let (out, st) := Impl.execRoot o rootName fields
+          -- the Spec end to end: §6.3.2 collection + §6.4 completion, on the same oracle
+          let specVerdict :=
+            match planFields s (specCollector s d.frags vs) fuel root d.sels with
+            | none => "spec-out-of-fuel"
+            | some sfields =>
+              let (sout, sst) := Spec.execRoot o rootName sfields
+              if render sout != render out then "data"
+              else if errStrs sst.errs != errStrs st.errs then "errors"
+              else if sortStrs (sst.invs.map fun (p, h) => p ++ " " ++ h) !=
+                  sortStrs (st.invs.map fun (p, h) => p ++ " " ++ h) then "invocations"
+              else "agree"
           let res := Json.mkObj [
             ("data", Json.str (render out)),
             ("errors", Json.arr ((errStrs st.errs).map Json.str).toArray),
             ("invs", Json.arr ((sortStrs (st.invs.map fun (p, h) => p ++ " " ++ h)).map Json.str).toArray),
             ("recovers", Json.num st.recovers),
-            ("unlogged", Json.arr (st.unlogged.map Json.str).toArray)]
+            ("unlogged", Json.arr (st.unlogged.map Json.str).toArray),
+            ("wf", Json.bool (fieldsWfb fields)),
+            ("dupsUnrelated", Json.bool (fieldsDupsUnrelated s fields)),
+            ("spec", Json.str specVerdict)]
           res.compress
 
 partial def loop (h : IO.FS.Stream) (out : IO.FS.Stream) (s : Schema) : IO Unit := do
